@@ -185,6 +185,9 @@ func (a *aggregate) add(cd *CheckDef, r *Result) {
 	defer a.mu.Unlock()
 	a.results++
 	a.status[r.Status]++
+	if r.Status == "crash" && a.status["crash"] <= 10 {
+		fmt.Fprintf(os.Stderr, "CRASH: scenario %d: %s\n", r.Idx, r.Note)
+	}
 	for k, v := range r.Stats {
 		a.stats[k] += v
 	}
